@@ -28,7 +28,7 @@ func init() {
 	props["C02"] = func(c *Ctx) { runRouting(c, "C02") }
 }
 
-var litPool = []string{"v1", "a", "b", "books", "x", "shelves", "é", "a-b", "a.b", "x1", "name", "v", "ab", "é日", "日é"}
+var litPool = []string{"v1", "a", "b", "books", "x", "shelves", "é", "a-b", "a.b", "x1", "name", "v", "ab", "é日", "日é", "users", "users-archive", "v1.beta"}
 var segPool = []string{"x", "y1", "42", "a", "é", "books", "v1", "null", "-7", "a=b", "x~y", "b", "shelves", "Z", "0", "12345", "a.b", "x1", "日本", "é日", "日é", "aé日b", "4294967295", "4294967296", "4294967297", "2147483647", "2147483648", "-2147483648", "-2147483649", "007", "1e3", "1.0",
 	// every character larking documents as valid in a path segment
 	"a;b", "a,b", "a@b", "a!b", "a$b", "a&b", "a'b", "(a)", "a*b", "a+b", "a=b;c", ";", "~"}
@@ -328,8 +328,27 @@ func runRouting(c *Ctx, prop string) {
 	}
 	c01API(c, prop)
 	nSets := c.N(500, 12000)
-	for si := 0; si < nSets; si++ {
-		rules := genRuleSet(c, 3)
+	lit := func(s string) tseg { return tseg{kind: sLit, lit: s} }
+	v := func(field string, sub ...tseg) tseg { return tseg{kind: sVar, field: field, sub: sub} }
+	// sibling variables whose patterns begin with literals one of which continues the other with a
+	// character that sorts before '/' ('-', '.'): the variables slice is sorted by pattern TEXT
+	// ("users-archive/*" < "users/*"), not by leading literal ("users" < "users-archive")
+	directedSets := [][]rrule{
+		{{method: 0, primary: rbind{kind: "GET", t: ttmpl{segs: []tseg{lit("v1"), v("name", lit("users"), tseg{kind: sStar})}}}},
+			{method: 1, primary: rbind{kind: "GET", t: ttmpl{segs: []tseg{lit("v1"), v("name", lit("users-archive"), tseg{kind: sStar})}}}}},
+		{{method: 0, primary: rbind{kind: "GET", t: ttmpl{segs: []tseg{lit("api"), v("name", lit("v1"), tseg{kind: sStar})}, verb: "get"}}},
+			{method: 1, primary: rbind{kind: "GET", t: ttmpl{segs: []tseg{lit("api"), v("name", lit("v1.beta"), tseg{kind: sStarStar})}}}}},
+		{{method: 1, primary: rbind{kind: "GET", t: ttmpl{segs: []tseg{v("name", lit("a.b"), tseg{kind: sStar})}}}},
+			{method: 0, primary: rbind{kind: "GET", t: ttmpl{segs: []tseg{v("name", lit("a"), tseg{kind: sStar})}}}},
+			{method: 2, primary: rbind{kind: "GET", t: ttmpl{segs: []tseg{v("name", lit("a-b"), tseg{kind: sStar}, lit("x"))}}}}},
+	}
+	for si := 0; si < nSets+len(directedSets); si++ {
+		var rules []rrule
+		if si < len(directedSets) {
+			rules = directedSets[si]
+		} else {
+			rules = genRuleSet(c, 3)
+		}
 		trie, outs := env.buildImplTrie(rules)
 		line := rulesLine(rules)
 		c.Correspond("addrules", join("addrules", line), strings.Join(outs, " "), true)
